@@ -112,6 +112,11 @@ def wantsKillInTransition (cfg : Cfg) (p : Proc) (now : Int) : Bool :=
   let p0 := rollback cfg now p
   p.state == .stopping && p0.pid != 0 && Sv.ile (p0.delay - now) 0
 
+/-- `options.pidhistory[pid] = self` in `_spawn_as_parent` -/
+def regFork (name : Nat) (acc : Sup) : Out → Sup
+  | .fork pid => { acc with pidhist := (acc.pidhist.filter (·.1 != pid)) ++ [(pid, name)] }
+  | _ => acc
+
 /-- run a per-process operation on process (gid, name), recording its outputs and errors;
     an AssertionError raised here is *not* caught by the main loop -/
 def onProc (name : Nat) (f : Cfg → Proc.S → Proc.S) : M := sguard fun s =>
@@ -121,9 +126,7 @@ def onProc (name : Nat) (f : Cfg → Proc.S → Proc.S) : M := sguard fun s =>
     let r := f e.cfg { p := e.p }
     let s1 := { s with procs := setProc s.procs name r.p, outs := s.outs ++ r.outs.map (SOut.proc name) }
     -- pidhistory: a successful fork registers the child
-    let s2 := r.outs.foldl (fun acc o => match o with
-      | .fork pid => { acc with pidhist := (acc.pidhist.filter (·.1 != pid)) ++ [(pid, name)] }
-      | _ => acc) s1
+    let s2 := r.outs.foldl (regFork name) s1
     match r.err with
     | some _ => { s2 with err := some .assertion }
     | none => s2
@@ -184,6 +187,10 @@ def anyUnstopped (s : Sup) : Bool := !(unstopped s.procs).isEmpty
 def stopAll (gid : Nat) : M := sguard fun s =>
   (sortBy (·.prio) (members s.procs gid)).reverse.foldl (fun acc e => procGroupStop e.name acc) s
 
+/-- `if not self.shutdown_report(): raise asyncore.ExitNow` -/
+def exitTest : M := sguard fun s3 =>
+  if !anyUnstopped s3 then { s3 with outs := s3.outs ++ [.exitNow], exited := true } else s3
+
 /-- top of the loop: the shutdown test, phase 1, the exit test -/
 def shutdownPhase1 : M := sguard fun s =>
   if runforever_g1 s.mood 0 0 0 s.stopping false then
@@ -193,7 +200,7 @@ def shutdownPhase1 : M := sguard fun s =>
     let s2 := match s1.stopGroups.getLast? with
       | some gid => stopAll gid s1
       | none => s1
-    sguard (fun s3 => if !anyUnstopped s3 then { s3 with outs := s3.outs ++ [.exitNow], exited := true } else s3) s2
+    exitTest s2
   else s
 
 /-- one `reap()` invocation: waitpid answers come from the environment; the recursion guard stops
@@ -217,16 +224,19 @@ def reap : M := sguard fun s =>
   | [] => { s with err := some .envExhausted }
   | w :: ws => reapLoop 0 w { s with env := { s.env with waits := ws } }
 
+/-- the mood after `handle_signal()` dequeued `sig` -/
+def newMood (mood sig : Int) : Int :=
+  if !(handle_signal_g0 mood sig 0 0 false false) then mood
+  else if handle_signal_g1 mood sig 0 0 false false then handle_signal_a1 mood sig 0 0 false false
+  else if handle_signal_g2 mood sig 0 0 false false then
+    if handle_signal_g3 mood sig 0 0 false false then mood else handle_signal_a2 mood sig 0 0 false false
+  else mood
+
 /-- `handle_signal()` -/
 def handleSignal : M := sguard fun s =>
   match s.env.sig with
   | none => s
-  | some sig =>
-    if !(handle_signal_g0 s.mood sig 0 0 false false) then s
-    else if handle_signal_g1 s.mood sig 0 0 false false then { s with mood := handle_signal_a1 s.mood sig 0 0 false false }
-    else if handle_signal_g2 s.mood sig 0 0 false false then
-      if handle_signal_g3 s.mood sig 0 0 false false then s else { s with mood := handle_signal_a2 s.mood sig 0 0 false false }
-    else s
+  | some sig => { s with mood := newMood s.mood sig }
 
 def shutdownPhase2 : M := sguard fun s =>
   if runforever_g10 s.mood 0 0 0 s.stopping false then
@@ -333,6 +343,17 @@ def rpcGuarded (r : Rpc) : M := sguard fun s =>
   | some .assertion => { s1 with err := none }
   | _ => s1
 
+/-- `onwait` of startProcess(wait=True): the answer, or `none` for NOT_DONE_YET -/
+def startWaitAnswer (p : Proc) : Option Int :=
+  if p.spawnerr then some faultSPAWN_ERROR
+  else if p.state != .starting && p.state != .running then some faultABNORMAL_TERMINATION
+  else if p.state == .running then some faultSUCCESS
+  else none
+
+/-- `onwait` of stopProcess(wait=True), evaluated after its `stop_report()` -/
+def stopWaitAnswer (p : Proc) : Option Int :=
+  if !(p.state ∈ stoppedStates) then none else some faultSUCCESS
+
 /-- poll one deferred answer (`onwait`) -/
 def pollDeferred (d : Deferred) : M := sguard fun s =>
   match d with
@@ -340,17 +361,17 @@ def pollDeferred (d : Deferred) : M := sguard fun s =>
     match findPE s.procs name with
     | none => s
     | some e =>
-      if e.p.spawnerr then semit (.answer id faultSPAWN_ERROR true) s
-      else if e.p.state != .starting && e.p.state != .running then semit (.answer id faultABNORMAL_TERMINATION true) s
-      else if e.p.state == .running then semit (.answer id faultSUCCESS true) s
-      else { s with pending := s.pending ++ [d] }
+      match startWaitAnswer e.p with
+      | some c => semit (.answer id c true) s
+      | none => { s with pending := s.pending ++ [d] }
   | .stopWait id name =>
     let s1 := onProc name (fun cfg => stopReport cfg s.env.now) s
     match findPE s1.procs name with
     | none => s1
     | some e =>
-      if !(e.p.state ∈ stoppedStates) then { s1 with pending := s1.pending ++ [d] }
-      else semit (.answer id faultSUCCESS true) s1
+      match stopWaitAnswer e.p with
+      | some c => semit (.answer id c true) s1
+      | none => { s1 with pending := s1.pending ++ [d] }
 
 def pollAll : M := sguard fun s =>
   let ds := s.pending
